@@ -125,6 +125,19 @@ def gen_bw_deep(rng, npat=500):
     return pats
 
 
+def gen_bw_dense(rng, npat=1200):
+    """Seeded set with THOUSANDS of states, most of them internal: patterns of length 1..6 over an
+    8-symbol alphabet with 0x00, 0x01 and 0xFF.  With num_free_blocks = 1..3 every ring-buffer slot of
+    the builder's free list is recycled dozens of times."""
+    alpha = [0x00, 0x01, 0xFF] + rng.sample(range(0x61, 0x7B), 5)
+    pats = set(bytes([a]) for a in alpha)
+    while len(pats) < npat:
+        pats.add(bytes(rng.choice(alpha) for _ in range(rng.randint(2, 6))))
+    pats = sorted(pats)
+    rng.shuffle(pats)
+    return pats
+
+
 def gen_bw_big(rng, nblocks_min=3):
     """Seeded multi-block set: wide fan-outs over random bytes so that several 256-slot blocks
     are needed, with NUL/0x01/0xFF among the labels."""
